@@ -150,6 +150,15 @@ def lkids_of(recipe: Any) -> list[tuple[str, int | None, Any]]:
 
 
 def lreset() -> None:
+    """Per-path reset: the legacy registry, plus the hidden-state hygiene shared with the other zoo
+    (module-level containers, scalars, caches and singleton objects of every loaded pyoak module put
+    back to what they were at import, as in a fresh process)."""
+    import pyoak.legacy.match.pattern  # noqa: F401
+    import pyoak.legacy.match.xpath  # noqa: F401
+
+    from .zoo import reset_all
+
+    reset_all()
     AwareASTNode._nodes.clear()
 
 
